@@ -861,4 +861,8 @@ def run(ctx):
     from .common import import_obligations
     # every replica stage is seeded with the replica index (C09.R4 / R6): otherwise a replica is not the same computation in every run
     import_obligations(ctx, 'C09', 'R10', only_rules={'R4', 'R6'}, floor=3)
+    # every replica starts from `state.clone()` and the structure that is written is (a descendant of) such a clone: a Clone impl
+    # that drops a field (the crystal family of the cell, a site, a shape parameter) changes what is written (C09.R3)
+    import_obligations(ctx, 'C09', 'R11', only_rules={'R3'}, floor=4,
+                       only_instances=lambda i: i.startswith('clone-fidelity:'))
 
